@@ -130,7 +130,14 @@ func CmpUpto(a, b []byte) int {
 //
 // Since 0.1.20
 func StrCmpUpto(a string, b []byte) int {
-	return CmpUpto(*(*[]byte)(unsafe.Pointer(&a)), b)
+	// A string header has only 2 words(data, len): build a complete 3-word slice
+	// header instead of reading the capacity from whatever is next to `a` in
+	// memory.
+	sh := struct {
+		string
+		cap int
+	}{a, len(a)}
+	return CmpUpto(*(*[]byte)(unsafe.Pointer(&sh)), b)
 }
 
 // Len returns the number of payload bits in a bitStr.
